@@ -4,7 +4,7 @@
 # demo fails with the patch and passes without. Then imports it into /verif/seeded/<PROP>-<k>/.
 set -u
 P=$1; K=$2
-SRC=/tmp/seed_$P/out/$K
+SRC=${SEED_SRC:-/tmp/seed_$P}/out/$K   # round 2: SEED_SRC=/tmp/seed2_$P SEED_AS=<k+3>
 W=/tmp/vw_$P
 LOG=/tmp/vw_$P.$K.log
 : > $LOG
@@ -23,7 +23,7 @@ echo "$T" >>$LOG
 echo "$T" | grep -q "100% tests passed, 0 tests failed out of 126" || { git -C $W checkout -- .; res "TESTS-FAIL: $T"; exit 1; }
 bash $SRC/run_demo.sh $W > /tmp/vw_$P.$K.pat 2>&1; tail -1 /tmp/vw_$P.$K.pat | grep -q "DEMO FAIL" || { git -C $W checkout -- .; res "DEMO-NOT-FAILING-PATCHED"; exit 1; }
 git -C $W checkout -- .
-D=/verif/seeded/$P-$K
+D=/verif/seeded/$P-${SEED_AS:-$K}
 mkdir -p $D
 cp $SRC/patch.diff $D/; cp $SRC/README.md $D/ 2>/dev/null
 for f in $SRC/demo* $SRC/run_demo.sh $SRC/*.xml $SRC/*.vtk $SRC/*.cpp $SRC/*.sh $SRC/*.py; do [ -f "$f" ] && [ $(stat -c %s "$f") -lt 400000 ] && cp "$f" $D/; done 2>/dev/null
